@@ -77,6 +77,7 @@ TRANSLATORS = {
     "GenSave": "gen_save",
     "GenSemiAsync": "gen_semiasync",
     "GenKernel": "gen_kernel",
+    "GenRviStep": "gen_rvistep",
 }
 
 
